@@ -117,7 +117,7 @@ func (o *output) Gen(r *rand.Rand, tier string, emit func(string)) {
 		for i := 0; i < nl; i++ {
 			ll := []int{0, 1, 3, 20, 200, 5000}[r.Intn(6)]
 			if k%50 == 0 && i == 0 {
-				ll = 70000 // longer than bufio's buffer
+				ll = 9000 // longer than bufio's buffer
 			}
 			for j := 0; j < ll; j++ {
 				stream = append(stream, byte('a'+r.Intn(26)))
